@@ -109,13 +109,22 @@ SpyTrees ==
     \cup {[ty |-> "int", e |-> Bin(op, Attr(Var("o"), "x"), Item(Var("o"), LS(<<121>>)))] : op \in {"+", "*", "-"}}
     \cup {[ty |-> "int", e |-> Bin(op, Bin(op2, Item(Var("l"), LI(1)), LI(2)), Attr(Var("o"), "x"))] : op \in {"+", "*"}, op2 \in {"+", "*"}}
 
-Ctx2 == Ctx @@ ("o" :> VM(<<VS(<<120>>), VS(<<121>>)>>, <<VI(5), VI(3)>>)) @@ ("l" :> VL(<<VI(4), VI(9)>>))
+\* containment in a long sequence (the engine switches to a lookup table above 50 elements): literal and computed left operands
+Big(n) == VL([i \in 1..n |-> VI(i)])
+InTrees ==
+    {[ty |-> "bool", e |-> Bin(op, l, r)] : op \in {"in", "not in"},
+        l \in {LI(7), Var("a"), Bin("+", Var("a"), LI(4)), Bin("+", Bin("*", Var("b"), LI(2)), LI(1)), Bin("-", Var("a"), LI(100)),
+                Bin("/", LI(6), LI(3)), Bin("%", Var("a"), LI(4)), Un("-", Var("a")), Filt("length", Var("s"), <<>>), LI(51), LI(61), LI(0)},
+        r \in {Var("big"), Var("big50"), Lit(Big(52)), Var("bigt")}}
+    \cup {[ty |-> "bool", e |-> Bin("and", Bin("in", Bin("+", Var("a"), LI(4)), Var("big")), Bin("not in", Bin("*", Var("a"), LI(10)), Var("big")))]}
+
+Ctx2 == Ctx @@ ("big" :> Big(60)) @@ ("big50" :> Big(50)) @@ ("bigt" :> VLg([i \in 1..55 |-> VI(i)], "ints")) @@ ("o" :> VM(<<VS(<<120>>), VS(<<121>>)>>, <<VI(5), VI(3)>>)) @@ ("l" :> VL(<<VI(4), VI(9)>>))
 
 \* ---- observation wrappers ------------------------------------------------------
 cT == <<84>>  cF == <<70>>  cX == <<88>>
 Obs(ty, x) == IF ty = "bool" THEN <<IfElse(x, <<Text(cT)>>, <<Text(cF)>>)>> ELSE <<PrintS(x)>>
 
-Positions == {"direct", "set", "elseif", "forseq", "incwith", "filtarg", "fnarg", "macarg", "arrelem", "hashval"}
+Positions == {"direct", "set", "elseif", "forseq", "incwith", "incwithonly", "iftruth", "filtarg", "fnarg", "macarg", "arrelem", "hashval"}
 
 \* templates of position pos for tree e of type ty
 PosWorld(pos, ty, e) ==
@@ -125,13 +134,18 @@ PosWorld(pos, ty, e) ==
       [] pos = "forseq"  -> ("main" :> <<For1("z", Arr(<<e>>), Obs(ty, Var("z")))>>)
       [] pos = "incwith" -> ("main" :> <<Include(LS(NT.t1), Hash(<<LS(NT.z)>>, <<e>>), TRUE, FALSE, FALSE, FALSE)>>)
                             @@ ("t1" :> Obs(ty, Var("z")))
+      [] pos = "incwithonly" -> ("main" :> <<Include(LS(NT.t1), Hash(<<LS(NT.z), LS(NT.y)>>, <<e, LI(1)>>), TRUE, TRUE, FALSE, FALSE)>>)
+                            @@ ("t1" :> Obs(ty, Var("z")))
+      \* the value decides an if tag and a conditional expression alike (zero, the empty string are falsy however they were computed)
+      [] pos = "iftruth" -> ("main" :> <<IfElse(e, <<Text(cT)>>, <<Text(cF)>>), PrintS(Cond(e, LI(1), LI(2))),
+                                        If(<<LB(FALSE), e>>, <<<<Text(cX)>>, <<Text(cT)>>>>, <<Text(cF)>>, TRUE), IfElse(Un("not", e), <<Text(cF)>>, <<Text(cT)>>)>>)
       [] pos = "filtarg" -> ("main" :> Obs(ty, Filt("default", Lit(Null), <<e>>)))
       [] pos = "fnarg"   -> ("main" :> Obs(ty, Spy("sp", "p1", e)))
       [] pos = "macarg"  -> ("main" :> <<Macro("m", <<Param("z")>>, Obs(ty, Var("z"))), PrintS(Call("m", <<e>>))>>)
       [] pos = "arrelem" -> ("main" :> Obs(ty, Item(Arr(<<e>>), LI(0))))
       [] pos = "hashval" -> ("main" :> <<Set("h", Hash(<<LS(NT.k)>>, <<e>>))>> \o Obs(ty, Attr(Var("h"), "k")))
 
-PosApplies(pos, ty) == pos # "elseif" \/ ty = "bool"
+PosApplies(pos, ty) == (pos # "elseif" \/ ty = "bool") /\ (pos # "iftruth" \/ ty \in {"int", "str"})
 
 World(tp) == MkW(tp, {}, {}, NoFault)
 
@@ -169,7 +183,12 @@ RunsOf(t) ==
         combos == {<<p, L>> : p \in poss, L \in Layouts(small)}
     IN {[label |-> c[1] \o "/" \o c[2].par \o "/" \o c[2].sp,
          tp |-> Sources(PosWorld(c[1], t.ty, t.e), c[2]),
-         xcalls |-> IF c[1] = "fnarg" THEN [id \in {"p1"} |-> 1] ELSE [id \in {} |-> 0]] : c \in combos}
+         xcalls |-> IF c[1] = "fnarg" THEN [id \in {"p1"} |-> 1] ELSE [id \in {} |-> 0]] : c \in {d \in combos : d[1] # "iftruth"}}
+       \cup {[label |-> c[1] \o "/" \o c[2].par \o "/" \o c[2].sp,
+         tp |-> Sources(PosWorld(c[1], t.ty, t.e), c[2]),
+         \* this position evaluates the tree four times and prints its truth value: own expectation
+         out |-> Render(World(PosWorld("iftruth", t.ty, t.e)), "main", Ctx2).out,
+         xcalls |-> [id \in SpyIds(t.e) |-> 4 * CountOf(Ref(t).calls, id)]] : c \in {d \in combos : d[1] = "iftruth"}}
 
 CaseOf(t) ==
     LET ref == Ref(t)
@@ -186,13 +205,13 @@ CaseOf(t) ==
 \* ---- model-level checks ------------------------------------------------------------
 \* the reference semantics gives the same observation in every position
 PositionsAgree(t) ==
-    \A p \in {q \in Positions : PosApplies(q, t.ty)} :
+    \A p \in {q \in Positions \ {"iftruth"} : PosApplies(q, t.ty)} :
         LET r == Render(World(PosWorld(p, t.ty, t.e)), "main", Ctx2) IN
         r.ok = Ref(t).ok /\ r.out = Ref(t).out
 
 Init == cs \in Parts
 Next == /\ "k" \in DOMAIN cs
-        /\ cs' \in {t \in (IF cs.ty = "spy" THEN SpyTrees ELSE TreesOfPart(cs)) : InFragment(t)}
+        /\ cs' \in {t \in (IF cs.ty = "spy" THEN SpyTrees \cup InTrees ELSE TreesOfPart(cs)) : InFragment(t)}
 Spec == Init /\ [][Next]_cs
 
 IsTree == "e" \in DOMAIN cs
